@@ -67,6 +67,16 @@ def readI32 (inp : List UInt8) : Res (Int32 × List UInt8) :=
   | none => .err
   | some r => .ok r
 
+/-- `c.ReadByte()` -/
+def readByte (inp : List UInt8) : Res (UInt8 × List UInt8) :=
+  match inp with
+  | [] => .err
+  | b :: rest => .ok (b, rest)
+
+/-- `binary.Read(r, binary.LittleEndian, &u32)` -/
+def readU32 (inp : List UInt8) : Res (UInt32 × List UInt8) :=
+  if inp.length < 4 then .err else .ok (UInt32.ofNat (Wire.leVal (inp.take 4)), inp.drop 4)
+
 /-- `io.ReadFull(conn, buf)` with `len(buf) = n`: all `n` bytes or an error -/
 def readFull (inp : List UInt8) (n : Int) : Res (List UInt8 × List UInt8) :=
   if n < 0 ∨ (inp.length : Int) < n then .err else .ok (inp.take n.toNat, inp.drop n.toNat)
